@@ -247,6 +247,11 @@ class AmplitudeChain(ModelDecay):
             print("Did not find at least one of the state particles from", *event_type)
             raise
 
+        # Reset the class-level bookkeeping: the outcome only depends on the input read
+        cls.all_particles = set()
+        cls.final_particles = set()
+        cls.cartesian = False
+
         fcs = get_from_parser(parsed, "fast_coherent_sum")
         if fcs:
             ((fcs,),) = fcs
